@@ -603,7 +603,6 @@ def _merge(fails):
 
 
 def _graph_worker(args):
-    torch.set_num_threads(1)
     histories, calls, cls_name, last = args
     out_fail, out_succ = [], []
     n = r = 0
@@ -628,7 +627,7 @@ def _graph_worker(args):
     return n, r, out_succ, out_fail, kc
 
 
-def bfs_graph(calls, depth, jobs, cls_name="Graph", init_history=None):
+def bfs_graph(calls, depth, jobs, cls_name="Graph", init_history=None, pool=None):
     """Returns dict(stats), failures (BFS order)."""
     start = init_history or []
     cls = Graph if cls_name == "Graph" else FactorGraph
@@ -639,7 +638,9 @@ def bfs_graph(calls, depth, jobs, cls_name="Graph", init_history=None):
     transitions = raised = 0
     per_depth = []
     last_hashes = set()
-    pool = multiprocessing.get_context("fork").Pool(jobs) if jobs > 1 else None
+    own_pool = pool is None and jobs > 1
+    if own_pool:
+        pool = multiprocessing.get_context("fork").Pool(jobs)
     try:
         for d in range(1, depth + 1):
             last = (d == depth)
@@ -666,7 +667,7 @@ def bfs_graph(calls, depth, jobs, cls_name="Graph", init_history=None):
             if not frontier:
                 break
     finally:
-        if pool:
+        if own_pool:
             pool.close(); pool.join()
     _merge(fails)
     return {"transitions": transitions, "raised": raised, "distinct_wf_states_expanded": len(seen),
@@ -954,7 +955,6 @@ def expand_hrg_state(history, calls):
 
 
 def _hrg_worker(args):
-    torch.set_num_threads(1)
     histories, calls, last = args
     out_fail, out_succ = [], []
     n = r = 0
@@ -979,7 +979,7 @@ def _hrg_worker(args):
     return n, r, out_succ, out_fail, kc
 
 
-def bfs_hrg(ctor, calls, depth, jobs):
+def bfs_hrg(ctor, calls, depth, jobs, pool=None):
     start = [ctor]
     seen = {json.dumps(canon_hrg(replay_hrg(start)), sort_keys=True)}
     frontier = [start]
@@ -987,7 +987,9 @@ def bfs_hrg(ctor, calls, depth, jobs):
     keycount: Dict[str, int] = {}
     transitions = raised = 0
     last_hashes = set()
-    pool = multiprocessing.get_context("fork").Pool(jobs) if jobs > 1 else None
+    own_pool = pool is None and jobs > 1
+    if own_pool:
+        pool = multiprocessing.get_context("fork").Pool(jobs)
     try:
         for d in range(1, depth + 1):
             last = (d == depth)
@@ -1013,7 +1015,7 @@ def bfs_hrg(ctor, calls, depth, jobs):
             if not frontier:
                 break
     finally:
-        if pool:
+        if own_pool:
             pool.close(); pool.join()
     _merge(fails)
     return {"transitions": transitions, "raised": raised, "distinct_wf_states_expanded": len(seen),
@@ -1202,6 +1204,16 @@ def run_bounded(ctx: Ctx) -> Report:
                                     "fggs.fggs.Node", "fggs.fggs.Edge", "fggs.fggs.EdgeLabel"]
     counts: Dict[str, int] = {}
     timing = {}
+    # one pool for all explorations (forking a torch process is expensive); torch threads are set once, before the fork
+    pool = multiprocessing.get_context("fork").Pool(ctx.jobs) if ctx.jobs > 1 else None
+    try:
+        return _run_bounded(ctx, rep, counts, timing, pool)
+    finally:
+        if pool:
+            pool.close(); pool.join()
+
+
+def _run_bounded(ctx, rep, counts, timing, pool) -> Report:
     with warnings.catch_warnings():
         warnings.simplefilter("ignore")
         # ---- Graph ------------------------------------------------------------------
@@ -1209,7 +1221,7 @@ def run_bounded(ctx: Ctx) -> Report:
         for uname, depth in plans:
             t0 = time.time()
             U = universe(uname)
-            stats, fails = bfs_graph(U.calls, depth, ctx.jobs)
+            stats, fails = bfs_graph(U.calls, depth, ctx.jobs, pool=pool)
             timing[f"Graph/{uname}"] = round(time.time() - t0, 1)
             _to_failures(rep, fails, counts, stats.pop("failing_transitions_by_key"))
             rep.bounded.append(Bounded(
@@ -1227,7 +1239,7 @@ def run_bounded(ctx: Ctx) -> Report:
         t0 = time.time()
         calls = factorgraph_calls()
         depth = 3 if not ctx.thorough else 4
-        stats, fails = bfs_graph(calls, depth, ctx.jobs, cls_name="FactorGraph")
+        stats, fails = bfs_graph(calls, depth, ctx.jobs, cls_name="FactorGraph", pool=pool)
         timing["FactorGraph"] = round(time.time() - t0, 1)
         _to_failures(rep, fails, counts, stats.pop("failing_transitions_by_key"))
         rep.bounded.append(Bounded(
@@ -1241,7 +1253,7 @@ def run_bounded(ctx: Ctx) -> Report:
         for cls, depth in (("HRG", 3 if not ctx.thorough else 4), ("FGG", 3 if not ctx.thorough else 4)):
             t0 = time.time()
             calls = hrg_calls(cls == "FGG")
-            stats, fails = bfs_hrg([cls, "str=S"], calls, depth, ctx.jobs)
+            stats, fails = bfs_hrg([cls, "str=S"], calls, depth, ctx.jobs, pool=pool)
             timing[cls] = round(time.time() - t0, 1)
             _to_failures(rep, fails, counts, stats.pop("failing_transitions_by_key"))
             rep.bounded.append(Bounded(
